@@ -83,8 +83,10 @@ impl Universe {
         }
         // classes outside the alphabet would be a defect too
         let extra: Vec<u64> = t.get_feature_classes().into_iter().filter(|c| !self.classes.contains(c)).collect();
+        let mut cls: Vec<u64> = t.get_feature_classes().into_iter().filter(|c| self.classes.contains(c)).collect();
+        cls.sort();
         let mut m = json!({"id": t.get_track_id(), "cnt": a.cnt, "tag": a.tag, "st": a.st.name(),
-               "obs": Value::Object(obs), "calls": calls, "hist": t.get_merge_history()});
+               "obs": Value::Object(obs), "cls": cls, "calls": calls, "hist": t.get_merge_history()});
         if !extra.is_empty() {
             m["extra_classes"] = json!(extra);
         }
@@ -233,7 +235,7 @@ fn diff_proj(spec: &Value, imp: &Value) -> Option<String> {
         if y.get("extra_classes").is_some() {
             return Some("track.extra_classes".into());
         }
-        for k in ["id", "cnt", "tag", "st", "obs", "hist", "calls"] {
+        for k in ["id", "cnt", "tag", "st", "obs", "cls", "hist", "calls"] {
             if jget(x, k) != jget(y, k) {
                 return Some(format!("track.{}", k));
             }
